@@ -521,11 +521,20 @@ pub fn run_lines(lines: &[String], oracles: bool) -> RunResult {
                                 rr.out.tags.push("retry-compared".into());
                             }
                         }
+                        let prev = (sys.spec_persisted.clone(), sys.last_pm.clone(), sys.last_ps.clone());
                         sys.spec_persisted = sys.spec.clone();
                         sys.last_pm = pm_text.clone();
                         sys.last_ps = ps_text.clone();
+                        let (pm_text, ps_text) = if mode == "stale" { (prev.1.clone(), prev.2.clone()) } else { (pm_text, ps_text) };
                         let mut pm: PersistedMetadata = serde_json::from_str(&pm_text).expect("metadata round trip");
-                        let ps: PersistedSpans = serde_json::from_str(&ps_text).expect("spans round trip");
+                        // every other restore decodes from a reader rather than from the text in memory (a
+                        // decoder must not rely on borrowing from its input); not through `serde_json::Value`:
+                        // its maps are sorted by key, which is not a lossless carrier for ordered value sets
+                        let ps: PersistedSpans = if ps_text.len() % 2 == 0 {
+                            serde_json::from_str(&ps_text).expect("spans round trip")
+                        } else {
+                            serde_json::from_reader(ps_text.as_bytes()).expect("spans round trip (from a reader)")
+                        };
                         let cold = mode.strip_prefix("cold:");
                         if let Some(nonce) = cold {
                             // "cold start": the state is brought up in a process that has never seen these
@@ -547,6 +556,19 @@ pub fn run_lines(lines: &[String], oracles: bool) -> RunResult {
                         }
                         match mode {
                             "keep" => {}
+                            "stale" => {
+                                // what this receiver persisted is lost: the next one starts from the state of
+                                // the previous persist, with the local span map of this one. The span state
+                                // and the map no longer belong together, so only the claims made for every
+                                // history remain (C07, C08: no misuse of host ids, nothing leaked)
+                                (sys.spec_persisted, sys.last_pm, sys.last_ps) = prev.clone();
+                                sys.spec = sys.spec_persisted.clone();
+                                sys.map_lost = true; // (the "completed execution leaves nothing open" clause needs a map that belongs to the state)
+                                if !wild {
+                                    wild = true;
+                                    rr.out.tags.push("wild:stale-restore".into());
+                                }
+                            }
                             m if m.starts_with("cold:") => {
                                 {
                                     let st = sys.host.state.lock().unwrap();
@@ -582,7 +604,7 @@ pub fn run_lines(lines: &[String], oracles: bool) -> RunResult {
                             }
                             _ => rr.out.obs.push("bad-op".into()),
                         }
-                        let local = if mode == "keep" { local } else { LocalSpans::default() };
+                        let local = if mode == "keep" || mode == "stale" { local } else { LocalSpans::default() };
                         sys.recv = Some(if cold.is_some() {
                             // no host installed yet. The receiver interns the fresh descriptions in its map's
                             // iteration order; the harness numbers the new metadata objects afterwards in
@@ -1089,6 +1111,7 @@ impl Suite for Receiver {
                             8 if rng.chance(1, 4) => { cold_n += 1; cold_line = format!("h persist cold:{}x{cold_n}", rng.next() % 1_000_000); cold_line.as_str() }
                             8 => *rng.pick(&["h persist keep", "h persist keep", "h persist lose"]),
                             2 | 4 => *rng.pick(&["h discard", "h persist keep", "h persist lose", "h discard"]),
+                            7 if rng.chance(1, 3) => "h persist stale",
                             _ if kind == 0 && rng.chance(1, 10) => { cold_n += 1; cold_line = format!("h persist cold:{}y{cold_n}", rng.next() % 1_000_000); cold_line.as_str() }
                             _ => *rng.pick(&["h persist keep", "h persist keep", "h persist lose", "h persist losenew", "h discard"]),
                         };
@@ -1109,6 +1132,19 @@ impl Suite for Receiver {
                                 }
                                 lines.extend(seg);
                                 lines.push("h persist keep".into());
+                                snap = g.clone();
+                            }
+                        } else if op == "h persist stale" {
+                            lines.push(op.into());
+                            let before = g.clone();
+                            g = snap.clone();
+                            if rng.chance(1, 2) {
+                                // the lost segment is replayed verbatim
+                                let seg_start = lines[..lines.len() - 1].iter().rposition(|l| l.starts_with("h ")).map_or(0, |p| p + 1);
+                                let seg: Vec<String> = lines[seg_start..lines.len() - 1].iter().filter(|l| !l.starts_with("host ")).cloned().collect();
+                                lines.extend(seg);
+                                lines.push("h persist keep".into());
+                                g = before;
                                 snap = g.clone();
                             }
                         } else {
